@@ -1027,3 +1027,12 @@ def replay_c_permuted(d):
     if outs[0] != outs[1]:
         return True, f"fields {d['fields']}: frame {outs[0]} with the schema, {outs[1]} with its declaration-permuted twin"
     return False, "same frame"
+
+
+def replay_c_carrier(d):
+    main = ('#include <stdio.h>\n#include "ecu_can.h"\nint main(void) { CanMsg%s m; printf("%%u\\n", (unsigned)(8 * sizeof m.%s)); return 0; }\n'
+            % (d["top"], d["field"]))
+    outs = _native_c(d["schema_text"], main, compilers=("clang-14",))
+    if outs and outs[0][1] == 0 and int(outs[0][2].strip()) < d["bits"]:
+        return True, f"member {d['field']} has {outs[0][2].strip()} bits, the field needs {d['bits']}"
+    return False, str(outs)[:200]
